@@ -1374,6 +1374,11 @@ func (area) Run(c *core.Ctx) error {
 			runHookWitness(c, hookFixed[j])
 			continue
 		}
+		if j := i - len(fixed) - len(hookFixed); j >= 0 && j < 2 {
+			// round 12: the pool's queue, saturated (12 tasks behind the blocker) and not (5)
+			runPoolQueue(c, rng, []int{12, 5}[j])
+			continue
+		}
 		if i%10 == 9 {
 			runLeaf(c, rng)
 			continue
@@ -1384,7 +1389,7 @@ func (area) Run(c *core.Ctx) error {
 		}
 		if i%50 == 4 {
 			// round 12: several tasks in the real pool's queue, saturation, cancellation between Submit and dequeue
-			runPoolQueue(c, rng)
+			runPoolQueue(c, rng, 0)
 			continue
 		}
 		if i%50 == 7 {
